@@ -17,8 +17,21 @@ def zl(x):
 
 
 class TrackObs(Observer):
-    def __init__(self, reactor, exact):
+    def __init__(self, reactor, exact, case=None):
         self.r = reactor
+        # spacer grids as given in the input (positions, loss coefficient or
+        # None for a correlation), not as the cloned regions recorded them
+        self.grid_truth = None
+        if case is not None:
+            self.grid_truth = []
+            for a in reactor.assemblies:
+                sg = case['types'][a.name].get('SpacerGrid')
+                if sg and sg.get('axial_positions') and a.has_rodded:
+                    self.grid_truth.append(
+                        ([float(x) for x in sg['axial_positions']],
+                         sg.get('loss_coeff')))
+                else:
+                    self.grid_truth.append(None)
         self.exact = int(bool(exact))
         self.raw = []
         n = len(reactor.assemblies)
@@ -32,6 +45,23 @@ class TrackObs(Observer):
         self.runP = [[-np.inf] * 5 for _ in range(n)]
         self.profP = [[None] * 5 for _ in range(n)]
         self.closed = np.zeros(n)
+
+    def _grid_z(self, ai, rr):
+        if self.grid_truth is not None:
+            return self.grid_truth[ai][0] if self.grid_truth[ai] else None
+        if 'grid' in rr.corr_constants:
+            return [float(x) for x in rr.corr_constants['grid']['z']]
+        return None
+
+    def _grid_K(self, ai, rr):
+        """Loss coefficient of one grid (None: the bundle has no grids)."""
+        if self._grid_z(ai, rr) is None:
+            return None
+        if self.grid_truth is not None and \
+                self.grid_truth[ai][1] is not None:
+            return float(self.grid_truth[ai][1])
+        # from a correlation (its value is C12's subject)
+        return float(rr.coolant_int_params.get('grid_loss_coeff', 0.0))
 
     def on_asm(self, ai, asm, pre, dz, t_gap, h_gap, power, adiabatic):
         reg = pre.reg
@@ -47,8 +77,9 @@ class TrackObs(Observer):
         if reg.is_rodded:
             p = reg.coolant_int_params
             cF = p['ff'] * dz * rho * p['vel'] ** 2 / reg.bundle_params['de'] / 2
-            if 'grid' in reg.corr_constants:
-                lossQ = p['grid_loss_coeff'] * rho * p['vel'] ** 2 / 2
+            K = self._grid_K(ai, reg)
+            if K is not None:
+                lossQ = K * rho * p['vel'] ** 2 / 2
         else:
             p = reg.coolant_params
             de = (reg._rr_equiv.bundle_params['de']
@@ -168,13 +199,13 @@ class TrackObs(Observer):
             if a.has_rodded:
                 rr = a.rodded
                 lo, hi = float(rr.z[0]), float(rr.z[1])
-                if 'grid' in rr.corr_constants:
-                    g = [zl(x) for x in rr.corr_constants['grid']['z']]
-                    ngrid = sum(1 for x in rr.corr_constants['grid']['z']
-                                if lo < x <= hi)
+                gz = self._grid_z(ai, rr)
+                if gz is not None:
+                    g = [zl(x) for x in gz]
+                    ngrid = sum(1 for x in gz if lo < x <= hi)
                     pint = rr.coolant_int_params
                     self.closed[ai] += ngrid * (
-                        pint['grid_loss_coeff'] * rr.coolant.density
+                        self._grid_K(ai, rr) * rr.coolant.density
                         * pint['vel'] ** 2 / 2)
             grids.append(g)
             blo.append(zl(lo))
